@@ -130,14 +130,15 @@ def impl_ip_init(s, version, flags):
 
 
 def impl_str_to_int(ver, s, flags):
-    return _module(ver).str_to_int(s, flags)
+    m = _module(ver)
+    return m.str_to_int(s) if flags == 0 else m.str_to_int(s, flags)     # flags=0 is the documented default: left out
 
 
 def impl_valid_str(ver, s, flags):
     import netaddr
     f = netaddr.valid_ipv4 if ver == 4 else netaddr.valid_ipv6
     assert f is _module(ver).valid_str
-    return f(s, flags)
+    return f(s) if flags == 0 else f(s, flags)     # flags=0 is the documented default: left out
 
 
 def impl_ip_format(ver, v, d):
